@@ -15,16 +15,21 @@ def main():
     repo = "/repo"
     if "--repo" in sys.argv:
         repo = sys.argv[sys.argv.index("--repo") + 1]
+    feat = None
+    if "--features" in sys.argv:
+        feat = sys.argv[sys.argv.index("--features") + 1]
     import hashlib
-    pkg = os.path.join(V, ".cache", "witness", "pkg-" + hashlib.md5(repo.encode()).hexdigest()[:8])
+    pkg = os.path.join(V, ".cache", "witness", "pkg-" + hashlib.md5((repo + "|" + str(feat)).encode()).hexdigest()[:8])
     src = os.path.join(pkg, "src", "bin")
     shutil.rmtree(os.path.join(pkg, "src"), ignore_errors=True)
     os.makedirs(src, exist_ok=True)
     with open(os.path.join(pkg, "Cargo.toml"), "w") as f:
-        f.write('[package]\nname = "hannibal-witness"\nversion = "0.0.0"\nedition = "2024"\n\n[workspace]\n\n[dependencies]\nhannibal = { path = "%s" }\nfutures = "0.3"\n' % repo)
+        f.write('[package]\nname = "hannibal-witness"\nversion = "0.0.0"\nedition = "2024"\n\n[workspace]\n\n[dependencies]\nhannibal = { path = "%s"%s }\nfutures = "0.3"\n' % (repo, (', default-features = false, features = ["%s"]' % feat) if feat else ""))
     shutil.copy(os.path.join(repo, "Cargo.lock"), os.path.join(pkg, "Cargo.lock"))
     progs = {}
     for w in catalogue.W:
+        if feat and feat in w.get("skip_features", ()):
+            continue
         for kind in ("fail", "twin"):
             name = "%s_%s" % (w["id"], kind)
             line = w["fail"] if kind == "fail" else w["twin"]
